@@ -109,7 +109,7 @@ func genCase(t *rapid.T) arith.Case {
 		} else if gen.Pick(t, 30, "bigpow") == 1 {
 			// a base within 10^-k of one raised to an integer of about k digits: the result stays
 			// moderate while the integer power runs through dozens of squarings
-			k := rapid.IntRange(3, 11).Draw(t, "bpk")
+			k := rapid.IntRange(3, 25).Draw(t, "bpk") // exponents up to 25 digits (beyond 64 bits)
 			m := rapid.IntRange(1, 999).Draw(t, "bpm")
 			one := new(big.Int).Exp(big.NewInt(10), big.NewInt(int64(k+2)), nil)
 			if rapid.Bool().Draw(t, "bpminus") {
